@@ -105,7 +105,7 @@ func (s fsSpec) nodes() int {
 
 // names: plain, with a space and a byte that is not valid UTF-8 (Latin-1 é:
 // file names are byte strings), valid multi-byte, format verbs, a lone 0xff
-var fsNames = []string{"a", "caf\xe9 b", "é", "50%d off %s", "\xff"}
+var fsNames = []string{"a", "caf\xe9 b", "é", "50%d off %s", "\xff", "0", "-", ".hidden"}
 var fsKinds = []string{"E", "F", "Lr", "La", "Ld", "D"}
 
 func fsRank(k string) int {
@@ -242,6 +242,26 @@ func (s fsSpec) materialise(path string, id *int) error {
 			return err
 		}
 		return os.Chmod(path, 0o777|os.ModeSetgid|os.ModeSticky)
+	case "Dh":
+		// directory whose entries share inodes: two names for one regular file in
+		// the same directory, a third in a subdirectory, two names for one
+		// symlink (a tree of regular files, directories and symlinks like any other)
+		if err := os.MkdirAll(filepath.Join(path, "sub"), 0o755); err != nil {
+			return err
+		}
+		if err := os.WriteFile(filepath.Join(path, "original"), []byte("one inode, three names"), 0o644); err != nil {
+			return err
+		}
+		if err := os.Link(filepath.Join(path, "original"), filepath.Join(path, "alias")); err != nil {
+			return err
+		}
+		if err := os.Link(filepath.Join(path, "original"), filepath.Join(path, "sub", "alias-below")); err != nil {
+			return err
+		}
+		if err := os.Symlink("original", filepath.Join(path, "lnk")); err != nil {
+			return err
+		}
+		return os.Link(filepath.Join(path, "lnk"), filepath.Join(path, "lnk-again"))
 	case "Z":
 		// two identical full chunks (a sparse / zero-filled file)
 		return os.WriteFile(path, make([]byte, 2*256*1024), 0o644)
@@ -491,6 +511,14 @@ func runC18(r *core.Run) {
 		// '%' in directory names at every depth (path construction must not treat
 		// names as format strings)
 		fsCase{Root: fsSpec{Kind: "D", Children: []fsSpec{{Kind: "F"}, {Kind: "F"}, {Kind: "F"}, {Kind: "D", Children: []fsSpec{{Kind: "F"}, {Kind: "F"}, {Kind: "F"}, {Kind: "D", Children: []fsSpec{{Kind: "F"}}}}}}}},
+		// every name of the list at once, as files and as directories (numeric,
+		// dash and dot-file names only occur here: the enumerated trees are too
+		// small to reach them)
+		fsCase{Root: fsSpec{Kind: "D", Children: []fsSpec{{Kind: "F"}, {Kind: "F"}, {Kind: "F"}, {Kind: "F"}, {Kind: "F"}, {Kind: "F"}, {Kind: "F"}, {Kind: "F"}}}},
+		fsCase{Root: fsSpec{Kind: "D", Children: []fsSpec{{Kind: "E"}, {Kind: "E"}, {Kind: "E"}, {Kind: "E"}, {Kind: "E"}, {Kind: "D", Children: []fsSpec{{Kind: "F"}}}, {Kind: "D", Children: []fsSpec{{Kind: "Lr"}}}, {Kind: "D", Children: []fsSpec{{Kind: "F"}, {Kind: "E"}}}}}},
+		// hard links: several names for one inode
+		fsCase{Root: fsSpec{Kind: "Dh"}},
+		fsCase{Root: fsSpec{Kind: "D", Children: []fsSpec{{Kind: "F"}, {Kind: "Dh"}, {Kind: "D", Children: []fsSpec{{Kind: "Dh"}}}}}},
 		// files whose chunks repeat
 		fsCase{Root: fsSpec{Kind: "Z"}}, fsCase{Root: fsSpec{Kind: "ZA"}},
 		fsCase{Root: fsSpec{Kind: "D", Children: []fsSpec{{Kind: "Z"}, {Kind: "F"}, {Kind: "ZA"}}}},
